@@ -298,10 +298,16 @@ class USBDevice(Elaboratable):
         timer.add_interface(endpoint_collection.timer)
         data_crc.add_interface(endpoint_collection.data_crc)
 
+        own_transaction = (token_detector.interface.pid != 0)
         m.d.comb += [
             # Low-level hardware interface.
             token_detector.interface                   .connect(endpoint_collection.tokenizer),
-            handshake_detector.detected                .connect(endpoint_collection.handshakes_in),
+            # Handshakes that follow a token for another device are not ours: the token detector clears its `pid`
+            # on such a token (and on an unreadable one), so only pass handshakes on while our own token stands.
+            endpoint_collection.handshakes_in.ack      .eq(handshake_detector.detected.ack   & own_transaction),
+            endpoint_collection.handshakes_in.nak      .eq(handshake_detector.detected.nak   & own_transaction),
+            endpoint_collection.handshakes_in.stall    .eq(handshake_detector.detected.stall & own_transaction),
+            endpoint_collection.handshakes_in.nyet     .eq(handshake_detector.detected.nyet  & own_transaction),
 
             # Device state.
             endpoint_collection.speed                  .eq(self.speed),
